@@ -3,6 +3,7 @@ package chk
 import (
 	"fmt"
 	"go/token"
+	"os"
 	"regexp"
 	"sort"
 	"strings"
@@ -376,25 +377,47 @@ func runTravFlag(c *Ctx) {
 		c.Fail("flag", h.Instrs[0].Pos(), "no first-child flag: either every child is searched with IterMin (entries of later children below the key's position are skipped) or every child is scanned")
 		return
 	}
+	// the flag has one constant value on entry to the loop and the opposite one after any iteration (its polarity
+	// — `useIter` or `first` — is the author's choice)
 	good := true
+	var entryV, latchV bool
+	haveE, haveL := false, false
 	for i, pr := range h.Preds {
 		v, isC := constBool(flag.Edges[i])
+		if !isC {
+			good = false
+			continue
+		}
 		if h.Dominates(pr) { // back-edge
-			if !isC || !v {
+			if haveL && latchV != v {
 				good = false
 			}
-		} else if !isC || v {
-			good = false
+			latchV, haveL = v, true
+		} else {
+			if haveE && entryV != v {
+				good = false
+			}
+			entryV, haveE = v, true
 		}
 	}
-	c.Check(good, "flag edges", flag.Pos(), "the flag is false on entry to the loop and true after any iteration")
+	if !haveE || !haveL || entryV == latchV {
+		good = false
+	}
+	c.Check(good, "flag edges", flag.Pos(), "the flag has one value on entry to the loop and the opposite value after any iteration")
+	if !good {
+		return
+	}
 	// which call is guarded by which outcome
 	t := &Termer{P: p, Custom: func(v ssa.Value, ps *pathState) (string, bool) {
 		if v == ssa.Value(flag) {
-			return "useIter", true
+			return "firstChildFlag", true
 		}
 		return "", false
 	}}
+	flagIs := func(lp *LPath, v bool) bool {
+		return lp.Has("firstChildFlag", token.EQL, "true", v) || lp.Has("firstChildFlag", token.EQL, "false", !v) ||
+			lp.Has("firstChildFlag", token.NEQ, "true", !v) || lp.Has("firstChildFlag", token.NEQ, "false", v)
+	}
 	_, bpaths, _ := bodyPaths(p, fn, t)
 	ok2 := true
 	n := 0
@@ -405,13 +428,13 @@ func runTravFlag(c *Ctx) {
 			}
 			if e.Name == "db.indexBtree.Iter" {
 				n++
-				if !lp.Holds("useIter", token.EQL, "true") {
+				if !flagIs(lp, latchV) {
 					ok2 = false
 				}
 			}
 			if e.Name == "db.indexBtree.IterMin" {
 				n++
-				if !(lp.Holds("useIter", token.EQL, "false") || lp.Has("useIter", token.EQL, "true", false)) {
+				if !flagIs(lp, entryV) {
 					ok2 = false
 				}
 			}
@@ -438,16 +461,16 @@ func runTravFlag(c *Ctx) {
 		// with one concrete iteration the flag phi is opaque at the exit: the literal tells which branch
 		switch last.Name {
 		case "db.indexBtree.Iter":
-			if !visited && !lp.Holds("useIter", token.EQL, "true") {
+			if !visited && !flagIs(lp, latchV) {
 				ok2 = false
 			}
 		case "db.indexBtree.IterMin":
-			if visited && !(lp.Holds("useIter", token.EQL, "false") || lp.Has("useIter", token.EQL, "true", false)) {
+			if visited && !flagIs(lp, entryV) {
 				ok2 = false
 			}
 		}
 	}
-	c.Check(ok2 && n >= 2, "flag use", fn.Pos(), "children are entered with Iter exactly when the flag is set, with IterMin(key) exactly when it is not — in the loop and for the right-most child")
+	c.Check(ok2 && n >= 2, "flag use", fn.Pos(), "children are entered with IterMin(key) exactly while the flag has its entry value (the first child) and with Iter afterwards — in the loop and for the right-most child")
 }
 
 func runSrch(c *Ctx) {
@@ -611,14 +634,26 @@ func runSrch(c *Ctx) {
 				checked = true
 				continue
 			}
-			bo, _ := guard.Cond.(*ssa.BinOp)
+			// the guard is `cell == nil`, `cell != k`, `!cell` or `cell` for a captured local
 			var cell ssa.Value
-			if bo != nil {
-				for _, op := range []ssa.Value{bo.X, bo.Y} {
-					if u, ok := op.(*ssa.UnOp); ok && u.Op == token.MUL {
-						if a, ok := u.X.(*ssa.Alloc); ok {
-							cell = a
-						}
+			var ops []ssa.Value
+			gc := guard.Cond
+			for {
+				if u, ok := gc.(*ssa.UnOp); ok && u.Op == token.NOT {
+					gc = u.X
+				} else {
+					break
+				}
+			}
+			if bo, ok := gc.(*ssa.BinOp); ok {
+				ops = []ssa.Value{bo.X, bo.Y}
+			} else {
+				ops = []ssa.Value{gc}
+			}
+			for _, op := range ops {
+				if u, ok := op.(*ssa.UnOp); ok && u.Op == token.MUL {
+					if a, ok := u.X.(*ssa.Alloc); ok {
+						cell = a
 					}
 				}
 			}
@@ -774,4 +809,198 @@ func DebugEvents(p *Program, names []string, body bool) {
 			}
 		}
 	}
+}
+
+// DebugClean prints the distinct clean (error-free) whole-function sequences incl. stores and the return terms.
+func DebugClean(p *Program, names []string) {
+	for _, n := range names {
+		fn := findFn(p, n)
+		if fn == nil {
+			fmt.Println("??", n)
+			continue
+		}
+		for _, s := range cleanSeqs(p, fn) {
+			fmt.Printf("%q: %q,\n", n, s)
+		}
+		if os.Getenv("LOOPS") != "" {
+			ls := loopSeqs(p, fn)
+			for k := 0; k < len(ls); k++ {
+				for _, s := range ls[k] {
+					fmt.Printf("%q: %q,\n", fmt.Sprintf("%s#loop%d", n, k), s)
+				}
+			}
+		}
+	}
+}
+
+// cleanSeqs: for every error-free path to a return: "[branch outcomes] events ⇒ return terms", deduplicated, sorted.
+func cleanSeqs(p *Program, fn *ssa.Function) []string {
+	t := &Termer{P: p}
+	paths, ok := EnumLits(fn.Blocks[0], 0, TabOpts{Termer: t, EventOf: callEvents(p), Limit: 200000})
+	if !ok {
+		return []string{"<too many paths>"}
+	}
+	set := map[string]bool{}
+	for _, lp := range paths {
+		if lp.Exit == nil || !cleanPathLoose(lp) {
+			continue
+		}
+		set[renderClean(t, lp, nil)] = true
+	}
+	return sortedStrings(set)
+}
+
+// loopSeqs: the same rendering for one generic iteration of every loop of fn (keyed by the loop's ordinal in block
+// order): error-free paths from the header back to the header ("⇒ next") or to a return.
+func loopSeqs(p *Program, fn *ssa.Function) map[int][]string {
+	out := map[int][]string{}
+	for k, h := range loopHeaders(fn) {
+		h := h
+		t := &Termer{P: p}
+		body := naturalLoop(h)
+		paths, ok := EnumLits(h, 0, TabOpts{Termer: t, EventOf: callEvents(p), Limit: 200000,
+			Stop: func(in ssa.Instruction, ps *pathState) bool {
+				b := in.Block()
+				if in != b.Instrs[0] {
+					return false
+				}
+				return (b == h && len(ps.Path) > 1) || !body[b]
+			}})
+		if !ok {
+			out[k] = []string{"<too many paths>"}
+			continue
+		}
+		set := map[string]bool{}
+		for _, lp := range paths {
+			if !cleanPathLoose(lp) || (lp.Exit == nil && lp.Stop == nil) {
+				continue
+			}
+			set[renderClean(t, lp, h)] = true
+		}
+		out[k] = sortedStrings(set)
+	}
+	return out
+}
+
+// naturalLoop: the blocks dominated by header h that can reach h again.
+func naturalLoop(h *ssa.BasicBlock) map[*ssa.BasicBlock]bool {
+	body := map[*ssa.BasicBlock]bool{h: true}
+	var work []*ssa.BasicBlock
+	for _, pr := range h.Preds {
+		if h.Dominates(pr) {
+			work = append(work, pr)
+		}
+	}
+	for len(work) > 0 {
+		b := work[len(work)-1]
+		work = work[:len(work)-1]
+		if body[b] {
+			continue
+		}
+		body[b] = true
+		work = append(work, b.Preds...)
+	}
+	return body
+}
+
+func renderClean(t *Termer, lp *LPath, hdr *ssa.BasicBlock) string {
+	var evs []string
+	// of several stores into the same field on one path the last one is the value that stays
+	last := map[string]int{}
+	for i, e := range lp.Events {
+		if e.Kind == "store" && e.Name != "[]" {
+			last[e.Base+"."+e.Name] = i
+		}
+	}
+	for i, e := range lp.Events {
+		switch e.Kind {
+		case "call":
+			evs = append(evs, e.Name+"("+strings.Join(e.Args, ", ")+")")
+		case "store":
+			if e.Name == "[]" {
+				evs = append(evs, "elem="+e.Val)
+			} else if last[e.Base+"."+e.Name] == i {
+				evs = append(evs, e.Name+"="+e.Val)
+			}
+		}
+	}
+	// the order of independent events is not part of the wiring (data dependencies are in the argument terms)
+	for i := range evs {
+		evs[i] = normSeq(evs[i : i+1])
+	}
+	sort.Strings(evs)
+	res := "next"
+	if lp.Stop != nil && lp.Stop.Block() != hdr {
+		res = "exit"
+	}
+	if lp.Exit != nil {
+		var rs []string
+		for _, r := range lp.Exit.Results {
+			rs = append(rs, t.Term(r, lp.PS))
+		}
+		res = reOrd.ReplaceAllString(rePhi.ReplaceAllString(strings.Join(rs, ", "), "φ"), "")
+	}
+	return "[" + cleanConds(lp) + "] " + strings.Join(evs, " ; ") + " ⇒ " + res
+}
+
+var reLoopIdx = regexp.MustCompile(`\[(const:\d+|\(φ\+const:1\)|φ)\]`)
+
+// cleanConds: the branch outcomes on the path that are not error tests, in a negation-free form, sorted, deduplicated.
+func cleanConds(lp *LPath) string {
+	set := map[string]bool{}
+	for _, l := range lp.Lits {
+		if bo, ok := l.Cond.(*ssa.BinOp); ok && l.C == "nil" {
+			v := bo.X
+			if isNilConst(v) {
+				v = bo.Y
+			}
+			if isErrorType(v.Type()) {
+				continue
+			}
+		}
+		op := l.Op
+		if !l.Val {
+			switch op {
+			case token.EQL:
+				op = token.NEQ
+			case token.NEQ:
+				op = token.EQL
+			case token.LSS:
+				op = token.GEQ
+			case token.GEQ:
+				op = token.LSS
+			case token.GTR:
+				op = token.LEQ
+			case token.LEQ:
+				op = token.GTR
+			}
+		}
+		subj := reLoopIdx.ReplaceAllString(reOrd.ReplaceAllString(rePhi.ReplaceAllString(l.Subject, "φ"), ""), "[i]")
+		if strings.Contains(subj, "φ") {
+			continue // loop bookkeeping
+		}
+		set[subj+" "+op.String()+" "+l.C] = true
+	}
+	return strings.Join(sortedStrings(set), " ∧ ")
+}
+
+// cleanPathLoose: no error-typed value was established non-nil on the path.
+func cleanPathLoose(lp *LPath) bool {
+	for _, l := range lp.Lits {
+		bo, ok := l.Cond.(*ssa.BinOp)
+		if !ok || l.C != "nil" {
+			continue
+		}
+		v := bo.X
+		if isNilConst(v) {
+			v = bo.Y
+		}
+		if !isErrorType(v.Type()) {
+			continue
+		}
+		if (l.Op == token.NEQ && l.Val) || (l.Op == token.EQL && !l.Val) {
+			return false
+		}
+	}
+	return true
 }
